@@ -175,7 +175,7 @@ impl Prop for P {
 
     fn strategy(_tier: Tier) -> BoxedStrategy<Case> {
         (
-            prop_oneof![6 => 1u8..=7, 3 => 8u8..=16, 1 => 17u8..=40],
+            prop_oneof![5 => 1u8..=7, 3 => 8u8..=16, 2 => 17u8..=40],
             vec(-16i8..=16, 64..=200),
             vec(-12i8..=12, 40..=40),
             vec(prop::bool::weighted(0.3), 40..=40),
@@ -237,13 +237,13 @@ impl Prop for P {
         match tier {
             Tier::Quick => Plan {
                 workers: 16,
-                cases_per_worker: 60,
+                cases_per_worker: 300,
                 timeout_s: 1800,
                 max_shrink_iters: 300,
             },
             Tier::Thorough => Plan {
                 workers: 16,
-                cases_per_worker: 1500,
+                cases_per_worker: 15000,
                 timeout_s: 14400,
                 max_shrink_iters: 300,
             },
